@@ -36,7 +36,7 @@ def known():
     global _known
     if _known is None:
         try:
-            _known = {k: set(v) for k, v in json.load(open(KNOWN_FILE)).items()}
+            _known = {k: (set(v) if isinstance(v, list) else v) for k, v in json.load(open(KNOWN_FILE)).items()}
         except (OSError, ValueError):
             _known = {}
     return _known
@@ -93,8 +93,9 @@ def inline_crate(j):
     kn = known().get('bin' if j.get('is_bin') else 'lib')
     if kn is None:
         return {'inlined': 0, 'dropped': []}
+    renamed = _alias_renamed(j, kn)
     by_name = {f['name']: f for f in j['fns']}
-    stats = {'inlined': 0, 'dropped': [], 'sites': []}
+    stats = {'inlined': 0, 'dropped': [], 'sites': [], 'renamed': renamed}
     uninlined_calls = set()
 
     def target_of(caller, t):
@@ -153,12 +154,68 @@ def inline_crate(j):
         if _used_as_value(j, name):
             continue
         stats['dropped'].append(name)
+    # closures whose only use was a for_each that is now a loop: their body lives in the parent
+    for f in j['fns']:
+        for cname in f.pop('_inlined_closures', []):
+            n_aggs = 0
+            for f2 in j['fns']:
+                for b in f2['blocks']:
+                    for st in b['stmts']:
+                        rv = st.get('rv') or {}
+                        if rv.get('r') == 'agg' and rv.get('kind', {}).get('k') == 'closure' and rv['kind'].get('path') == cname:
+                            n_aggs += 1
+            if n_aggs <= 1:
+                stats['dropped'].append(cname)
+                # nested closures of the dropped closure stay (their aggregates were spliced into the parent)
     if stats['dropped']:
         drop = set(stats['dropped'])
         j['fns'] = [f for f in j['fns'] if f['name'] not in drop]
     for f in j['fns']:
         f.pop('_inl_done', None)
     return stats
+
+
+def _alias_renamed(j, kn):
+    """a known private function that disappeared while exactly one new function with the same signature
+    appeared in the same module / impl is a rename: give it its reference name back (facts only)"""
+    names = {f['name']: f for f in j['fns'] if f.get('kind') != 'Closure'}
+    missing = [n for n in kn if n not in names]
+    unknown = [n for n in names if n not in kn]
+    if not missing or not unknown:
+        return []
+    ref_sigs = known().get(('bin' if j.get('is_bin') else 'lib') + '_sigs', {})
+    pairs = []
+    taken = set()
+    for m in sorted(missing):
+        parent = m.rsplit('::', 1)[0] if '::' in m else ''
+        sig = ref_sigs.get(m) if isinstance(ref_sigs, dict) else None
+        cands = [u for u in unknown if (u.rsplit('::', 1)[0] if '::' in u else '') == parent and u not in taken and
+                 (sig is None or names[u].get('sig') == sig)]
+        if sig is None:
+            continue
+        if len(cands) == 1:
+            pairs.append((cands[0], m))
+            taken.add(cands[0])
+    if not pairs:
+        return []
+    ren = dict(pairs)
+
+    def fix(x):
+        if isinstance(x, dict):
+            for k, v in list(x.items()):
+                if isinstance(v, str):
+                    if k in ('name', 'path', 'def'):
+                        for new, old in ren.items():
+                            if v == new or v.startswith(new + '::{'):
+                                x[k] = old + v[len(new):]
+                                break
+                else:
+                    fix(v)
+        elif isinstance(x, list):
+            for y in x:
+                fix(y)
+    fix(j['fns'])
+    return ['%s -> %s' % (a, b) for a, b in pairs]
 
 
 def _used_as_value(j, name):
@@ -306,6 +363,7 @@ def _for_each_to_loop(f, bi, by_name, inline_fn, stack, depth):
         f['blocks'].append(stub)
         if not _splice(f, bBody, g, 'fn'):
             return False
+        f.setdefault('_inlined_closures', []).append(g['name'])
     # the original block: move the iterator into its slot and enter the loop
     f['blocks'][bi]['stmts'].append({'s': 'assign', 'pl': pl(l_it, it_ty), 'rv': {'r': 'use', 'a': copy.deepcopy(it_op)}, 'line': line, 'exp': True})
     # the unit result of for_each
@@ -319,5 +377,6 @@ def write_known(crates):
     for kind, c in crates.items():
         if kind in ('lib', 'bin'):
             out[kind] = sorted(n for n, f in c.fns.items() if not f.is_closure)
+            out[kind + '_sigs'] = {n: f.j.get('sig', '') for n, f in sorted(c.fns.items()) if not f.is_closure}
     json.dump(out, open(KNOWN_FILE, 'w'), indent=0)
     return out
